@@ -413,9 +413,10 @@ TIES = {
     'C05': ('SrcTc.v', ['PyPrelude', 'PgmState', 'PureState', 'SrcTc', 'EquivTc'], 'EquivTc'),
     'C06': [('SrcTc.v', ['PyPrelude', 'PgmState', 'PureState', 'SrcTc', 'EquivTc'], 'EquivTc'),
             ('SrcFc.v', ['PyPrelude', 'PgmState', 'PureState', 'LineTok', 'PgmSrc', 'PgmEquiv', 'FcState', 'SrcFc', 'EquivFc'], 'EquivFc')],
-    'C16': ('SrcAe.v', ['PyPrelude', 'PgmState', 'AeState', 'SrcAe', 'EquivAe'], 'EquivAe'),
+    'C16': ('SrcDev.v', ['PyPrelude', 'PgmState', 'AeState', 'SrcAe', 'EquivAe', 'DevState', 'SrcDev', 'EquivDev'], ['EquivAe', 'EquivDev']),
     'C07': ('SrcTr.v', ['PyPrelude', 'PgmState', 'TrState', 'SrcTr', 'EquivTr'], 'EquivTr'),
 }
+TIE_NEEDS = {'SrcWr.v': ['pgm'], 'SrcFc.v': ['pgm'], 'SrcDev.v': ['SrcAe.v']}      # other generated files a group builds on
 TIE_PROPS = set(TIES)
 COQ_W = '-deprecated-hint-without-locality,-deprecated-instance-without-locality,-notation-overridden'
 
@@ -431,7 +432,7 @@ def source_tie_group(rep: Report, prop: str, group: str, tie_files: list, stmt_f
     src = REPO / 'src' / 'femto'
     gen_name = 'PgmSrc.v' if group == 'pgm' else group
     res = {'ok': False, 'stage': 'translate', 'log': '', 'theorems': [], 'axioms': {}, 'source': str(src), 'generated': gen_name}
-    rc, out = sh([sys.executable, '-B', str(VERIF / 'harness' / 'py2coq.py'), str(src), str(d)] + (['pgm', group] if group in ('SrcWr.v', 'SrcFc.v') else [group]), 120)
+    rc, out = sh([sys.executable, '-B', str(VERIF / 'harness' / 'py2coq.py'), str(src), str(d)] + TIE_NEEDS.get(group, []) + [group], 120)
     if rc != 0:
         res['log'] = out[-1500:]
         rep.violation('proof/source-tie/translator',
@@ -464,14 +465,14 @@ def source_tie_group(rep: Report, prop: str, group: str, tie_files: list, stmt_f
                           f'the methods translated from the source no longer satisfy the equivalence with the model: tie/{name}.v fails at {lemma}',
                           {'theorem': f'coq/tie/{name}.v: {lemma}', 'log': out[-2500:]}, no_input=True)
             return res
-        if name == stmt_file:
-            text = (d / f'{stmt_file}.v').read_text()
+        if name in (stmt_file if isinstance(stmt_file, list) else [stmt_file]):
+            text = (d / f'{name}.v').read_text()
             printed = re.findall(r'^\s*Print Assumptions\s+([A-Za-z_][\w\']*)\s*\.', text, flags=re.M)
             blocks = [b for b in re.split(r'^(?=Closed under the global context|Axioms:)', out, flags=re.M)
                       if b.startswith('Closed under') or b.startswith('Axioms:')]
             if len(blocks) != len(printed):
                 res['log'] = f'expected {len(printed)} assumption blocks, got {len(blocks)}'
-                rep.violation('proof/source-tie/assumptions', res['log'], {'theorem': f'coq/tie/{stmt_file}.v'}, no_input=True)
+                rep.violation('proof/source-tie/assumptions', res['log'], {'theorem': f'coq/tie/{name}.v'}, no_input=True)
                 return res
             for nm, b in zip(printed, blocks):
                 ax = [] if b.startswith('Closed under') else [a for a in re.findall(r'^([A-Za-z_][\w.\']*)\s*(?::|$)', b, flags=re.M) if a != 'Axioms']
@@ -480,7 +481,7 @@ def source_tie_group(rep: Report, prop: str, group: str, tie_files: list, stmt_f
                 if bad:
                     rep.violation('proof/source-tie/assumptions', f'{nm} depends on {bad}', {'theorem': nm}, no_input=True)
                     return res
-            res['theorems'] = printed
+            res['theorems'] = res['theorems'] + printed
     res['ok'] = True
     res['stage'] = 'done'
     shutil.rmtree(d, ignore_errors=True)
